@@ -122,3 +122,40 @@ Definition cluster_asdict_keys (transition vacancy : bool) : list nat :=
   0 :: (if transition then [1] else []) ++ (if vacancy then [2] else []).
 Definition cluster_flags_of_keys (ks : list nat) : bool * bool :=
   (existsb (Nat.eqb 1) ks, existsb (Nat.eqb 2) ks).
+
+(* ---- numbered families of HDF5 sub-groups ('T3Djump-0', 'T3Djump-1', ...): the writer creates one entry per list
+   member under the name `name i`; the reader must fetch them BY NUMBER.  h5py iterates a group in alphabetical order of
+   the names, which for decimal numbers is 0, 1, 10, 11, 2, ... *)
+Section Family.
+Variables K A : Type.
+Variable keqb : K -> K -> bool.
+Variable name : nat -> K.
+Definition write_family_from (s : nat) (l : list A) : list (K * A) := combine (map name (seq s (length l))) l.
+Definition write_family (l : list A) : list (K * A) := write_family_from 0 l.
+Fixpoint kassoc (k : K) (g : list (K * A)) : option A :=
+  match g with [] => None | (k', v) :: r => if keqb k' k then Some v else kassoc k r end.
+Definition read_by_number (g : list (K * A)) (n : nat) : list (option A) := map (fun i => kassoc (name i) g) (seq 0 n).
+End Family.
+Arguments write_family {K A} _ _. Arguments write_family_from {K A} _ _ _. Arguments kassoc {K A} _ _ _.
+Arguments read_by_number {K A} _ _ _ _.
+
+(* decimal digits of a number (most significant first) and the alphabetical order of such names *)
+Fixpoint digits_fuel (f n : nat) : list nat :=
+  match f with
+  | 0 => []
+  | S f' => if Nat.ltb n 10 then [n] else digits_fuel f' (Nat.div n 10) ++ [Nat.modulo n 10]
+  end.
+Definition digits (n : nat) : list nat := digits_fuel (S n) n.
+Fixpoint lex_leb (a b : list nat) : bool :=
+  match a, b with
+  | [], _ => true
+  | _ :: _, [] => false
+  | x :: a', y :: b' => if Nat.ltb x y then true else if Nat.ltb y x then false else lex_leb a' b'
+  end.
+Fixpoint lex_insert {A} (p : list nat * A) (l : list (list nat * A)) : list (list nat * A) :=
+  match l with
+  | [] => [p]
+  | q :: r => if lex_leb (fst p) (fst q) then p :: l else q :: lex_insert p r
+  end.
+(* what iterating the group yields *)
+Definition read_alphabetical {A} (g : list (list nat * A)) : list A := map snd (fold_right lex_insert [] g).
